@@ -199,6 +199,12 @@ func gen(g *common.Gen) {
 			g.Op("faces,%d", r.Range(2, 8))
 			g.Stat("op-face-table-round")
 		}
+		if i == 5 || i == 85 {
+			// one RIB operation over many prefixes (a few, and more than 256) is one step towards lookups
+			g.Op("atomic,%d", common.Pick(r, []int{3, 40}))
+			g.Op("atomic,%d", common.Pick(r, []int{257, 300}))
+			g.Stat("op-operation-atomic")
+		}
 		g.Op("adv")
 		if r.Chance(1, 2) {
 			// the life of a real face: registered, (destroyed through management,) a late route, transport closes
@@ -541,6 +547,18 @@ func exec(op string) string {
 	return res
 }
 
+// probeFib passes every call through to the real FIB and runs `after` when a ReplaceNextHopsEnc call has returned.
+type probeFib struct {
+	table.FibStrategy
+	after func()
+	seen  []int
+}
+
+func (p *probeFib) ReplaceNextHopsEnc(updates []table.FibNextHopsUpdate) {
+	p.FibStrategy.ReplaceNextHopsEnc(updates)
+	p.after()
+}
+
 func exec1(op string) string {
 	if wedged {
 		// goroutines of an earlier history are blocked inside the tables for good: this process observes
@@ -565,6 +583,61 @@ func exec1(op string) string {
 	}
 	if fib == nil {
 		return "skip"
+	}
+	if strings.HasPrefix(op, "atomic,") {
+		// atomic,<n>: n prefixes /8:67/<i> with routes of their own; then ONE RIB operation at a time that touches all
+		// of them (a child-inherit route registered above them, re-costed, the face torn down). The FIB is wrapped by
+		// a pass-through that looks every prefix up after each ReplaceNextHopsEnc call the operation makes: an
+		// observer between two calls of one operation must see the operation's face at all of the prefixes or at none
+		n := common.Atoi(op[7:])
+		if n < 1 || n > 2000 {
+			return "bad-op"
+		}
+		g := enc.NewStringComponent(enc.TypeGenericNameComponent, "g")
+		names := make([]enc.Name, n)
+		for i := range names {
+			names[i] = enc.Name{g, enc.NewStringComponent(enc.TypeGenericNameComponent, strconv.Itoa(i))}
+			rib.AddEncRoute(names[i], &table.Route{FaceID: uint64(30 + i%3), Origin: 0, Cost: 1, Flags: 0})
+		}
+		const f9 = uint64(9)
+		pf := &probeFib{FibStrategy: table.FibStrategyTable}
+		pf.after = func() {
+			c := 0
+			for _, nm := range names {
+				for _, nh := range pf.FibStrategy.FindNextHopsEnc(nm) {
+					if nh.Nexthop == f9 {
+						c++
+						break
+					}
+				}
+			}
+			pf.seen = append(pf.seen, c)
+		}
+		table.FibStrategyTable = pf
+		defer func() { table.FibStrategyTable = pf.FibStrategy }()
+		torn := 0
+		var calls []string
+		step := func(f func()) {
+			pf.seen = nil
+			f()
+			calls = append(calls, strconv.Itoa(len(pf.seen)))
+			for _, c := range pf.seen[:max(len(pf.seen)-1, 0)] { // every observation BETWEEN two calls
+				if c != 0 && c != n {
+					torn++
+				}
+			}
+		}
+		step(func() { rib.AddEncRoute(enc.Name{g}, &table.Route{FaceID: f9, Origin: 0, Cost: 5, Flags: 1}) })
+		step(func() { rib.AddEncRoute(enc.Name{g}, &table.Route{FaceID: f9, Origin: 0, Cost: 7, Flags: 1}) })
+		step(func() { rib.CleanUpFace(f9) })
+		step(func() { rib.AddEncRoute(enc.Name{g}, &table.Route{FaceID: f9, Origin: 0, Cost: 5, Flags: 1}) })
+		step(func() { rib.RemoveRouteEnc(enc.Name{g}, f9, 0) })
+		for _, nm := range names {
+			rib.RemoveRouteEnc(nm, uint64(30), 0)
+			rib.RemoveRouteEnc(nm, uint64(31), 0)
+			rib.RemoveRouteEnc(nm, uint64(32), 0)
+		}
+		return fmt.Sprintf("n=%d torn=%d", n, torn)
 	}
 	if strings.HasPrefix(op, "faces,") {
 		// K goroutines register one new face each in the global face table at the same moment;
